@@ -631,6 +631,7 @@ def dict_method(eng, o, name, args, kwargs, st, fr, k):
         h.set(("dval", kf, vf), z3.Store(h.get(("dval", kf, vf)), d2.t, val))
         h.set(("dn", kf), z3.Store(h.get(("dn", kf)), d2.t, n))
         h.set(("dkeys", kf), z3.Store(h.get(("dkeys", kf)), d2.t, keys))
+        h.set(("dpos", kf), z3.Store(h.get(("dpos", kf)), d2.t, z3.Select(h.get(("dpos", kf)), o.t)))
         return k(st, d2)
     raise _err(f"dict.{name} not modelled")
 
